@@ -10,21 +10,26 @@ def _cfgs(tier):
     return ["rwd", "dbg"] if tier == "quick" else ["rel", "rwd", "dbg", "dbg16"]
 
 
-def jobs_minblock(tier):
+def jobs_minblock(tier, strict_next=False):
+    """C18 (a). strict_next=True additionally demands next_capacity() == capacity of an identical block in whole nodes
+    (violation tag next-capacity-mismatch); off by default because the unchanged tree over-reports for small-node pools
+    from ~1500 nodes on (small_free_memory_list::usable_size ignores the inter-chunk alignment buffer) - the thorough
+    grid would fire; the quick grid (<= 1100 nodes) is clean and would then detect the DESIGN section 4 C18 mutant."""
     import checks
     jobs = []
+    sn = " --strict_next 1" if strict_next else ""
     for cfg in _cfgs(tier):
         if tier == "quick":
             # 64 x 1100 full grid + boundary counts for node sizes 65..128; 8 processes per configuration
             parts = 8
             for i in range(parts):
-                jobs.append(checks.J("h_minblock", cfg, f"--part pools --ns_stride {parts} --ns_off {i}",
+                jobs.append(checks.J("h_minblock", cfg, f"--part pools --ns_stride {parts} --ns_off {i}{sn}",
                                      name=f"minblock/pools[{cfg}] node sizes = {i} mod {parts}"))
         else:
             # 512 x 2000 full grid; cost grows with the node size, so the node sizes are dealt round-robin
             parts = 16
             for i in range(parts):
-                jobs.append(checks.J("h_minblock", cfg, f"--part pools --ns_stride {parts} --ns_off {i}",
+                jobs.append(checks.J("h_minblock", cfg, f"--part pools --ns_stride {parts} --ns_off {i}{sn}",
                                      name=f"minblock/pools[{cfg}] node sizes = {i} mod {parts}"))
         jobs.append(checks.J("h_minblock", cfg, "--part stacks", name=f"minblock/stacks+arenas[{cfg}] bytes 1..4096"))
     return jobs
@@ -47,6 +52,10 @@ _SWEEP_PARTS_THOROUGH = {
 
 
 def jobs_sweep(tier):
+    """C02 (b). Violation tags are "<what>@<family>" with what in {null, misaligned, outside-upstream, overlaps-prefill,
+    prefill-corrupted, not-writable, unusable-memory, unsupported-accepted, foreign-exception, abort, crash, hang} and family in
+    {pool-node, pool-array, coll-node, coll-array, stack, iteration, static, temporary, lowlevel, aligned}; the known-finding
+    fingerprint of run_enum_check is "h_sweep|<tag>"."""
     import checks
     parts = _SWEEP_PARTS_QUICK if tier == "quick" else _SWEEP_PARTS_THOROUGH
     jobs = []
